@@ -448,6 +448,13 @@ def run(rep):
                     lossy.append(_show(x)[:60])
         except Exception:
             lossy = None
+        # ... and the writer does not push it through a float either
+        wv = wkeys.get("nodata")
+        if wv is not None and lossy is not None:
+            for c_ in ast.walk(wv):
+                if isinstance(c_, ast.Call) and dotted(c_.func) in ("float", "np.float64", "np.float32", "numpy.float64") and "nodata" in ast.unparse(c_):
+                    lossy.append("to_dict: " + ast.unparse(wv)[:60])
+                    break
         if lossy is None:
             rep.undecided("R13.b", rel, f"{cls}.from_dict", "no-data value restored without a float conversion", "evaluation failed", line=fd.lineno)
         else:
